@@ -116,7 +116,8 @@ res.update(results)
 # a change that is outside the property's domain by design keeps its explanation (recorded in its meta.json)
 for sid in res:
     try:
-        note = json.load(open(f'{VERIF}/seeded/{sid}/meta.json')).get('not_detected_by_design')
+        _m = json.load(open(f'{VERIF}/seeded/{sid}/meta.json'))
+        note = _m.get('not_detected_by_design') or _m.get('superseded')
         if note: res[sid]['note'] = note
     except Exception:
         pass
